@@ -69,10 +69,10 @@ def freeze(x):
 
 def snap_axis(ax):
     if isinstance(ax, MultiAxis):
-        cached = ax.__dict__.get('_values', None)
+        # lazily built caches (_values, _size) are not part of the observable state: populating them is not a mutation
+        # (a *stale* cache is M-WF's business)
         return ('MAX', ax._name, tuple(snap_axis(m) for m in list.__iter__(ax.axes)),
-                freeze(ax.__dict__.get('_attrs', {})),
-                None if cached is None else freeze(cached))
+                freeze(ax.__dict__.get('_attrs', {})))
     return ('AX', ax._name, freeze(ax._values), freeze(ax._attrs))
 
 
